@@ -111,7 +111,7 @@ func rulesC16(c *Ctx) {
 			if x, twn, ok := NilTest(cond); ok && !twn && th.ObjOf(x) == aerr && g.ReachableFrom(inV)[cv-1] && !g.ReachableFrom(hv)[cv-1] {
 				t, _ := g.BranchTargets(cv - 1)
 				seen, _ := g.reach([]int{t}, nil, nil)
-				okSet, _ := g.MustPass(t, g.Exits, g.hasCall(setErr))
+				okSet, _ := g.MustPassIncl(t, g.Exits, g.hasCall(setErr))
 				if n := g.Node(t); n != nil && th.ContainsCall(n, setErr) {
 					okSet = true
 				}
@@ -594,13 +594,21 @@ func calleeIdent(fun ast.Expr) *ast.Ident {
 
 // decodeErrorReturns: on the branch where derr != nil every path returns without reaching hv.
 func decodeErrorReturns(f *Func, g *Graph, v int, derr types.Object, hv int) bool {
-	for _, cv := range g.condVertices() {
-		cond := g.Node(cv - 1).(ast.Expr)
-		if x, twn, ok := NilTest(cond); ok && !twn && f.ObjOf(x) == derr {
-			t, _ := g.BranchTargets(cv - 1)
-			seen, _ := g.reach([]int{t}, nil, nil)
-			return !seen[hv]
+	for _, t := range g.edgesWhere(func(a Atom) bool { return AtomSaysNil(a, false, func(e ast.Expr) bool { return f.ObjOf(e) == derr }) }) {
+		seen, _ := g.reach([]int{t}, nil, nil)
+		if seen[hv] || t == hv {
+			return false
 		}
+		// … and what is returned is a tool-level error: SetError is called on every path of the branch
+		marks := func(u int) bool {
+			for _, call := range f.AllCalls(g.Node(u), false) {
+				if fn := f.Callee(call); fn != nil && fn.Name() == "SetError" {
+					return true
+				}
+			}
+			return false
+		}
+		return g.allPathsPass(t, marks)
 	}
 	return false
 }
